@@ -488,7 +488,7 @@ class Array(metaclass=MetaArray):
             if len(info.shape) > 1:  # store items in the memory order of the array
                 value = value.transpose(info.order)
             buffer.update_from_nplike(coffset, cls._itemtype._dtype, value)
-        elif isinstance(value, cls):
+        elif isinstance(value, cls) and not cls._has_refs:  # binary copy
             if value._size == info.size:
                 buffer.update_from_xbuffer(
                     offset, value._buffer, value._offset, value._size
@@ -514,7 +514,9 @@ class Array(metaclass=MetaArray):
                             info.extra.get(idx),
                         )
         else:  # there is a value for initialization
-            if not hasattr(value, "shape"):  # not nplike
+            if not hasattr(value, "shape") and not isinstance(
+                value, Array
+            ):  # not nplike
                 value = np.asarray(value, dtype=object)
             if cls._is_static_type:
                 ioffset = offset + cls._data_offset
